@@ -261,8 +261,10 @@ static int files_equal(const char * a, const char * b) {
   return r;
 }
 
+static char g_self[600];
+
 static void run_case(const char * dir) {
-  char prefix[512], path[600], prefix2[512], path2[600], st1[600], st2[600];
+  char prefix[512], prefix2[512];
   dr_options opts[1];
   long long id, hexlim; int nw, i;
   expect("case"); id = tki();
@@ -279,7 +281,7 @@ static void run_case(const char * dir) {
   opts->uncollapse_min = (dr_clock_t)tki(); opts->collapse_max = (dr_clock_t)tki();
   opts->node_count_target = (long)tki(); opts->prune_threshold = (long)tki(); opts->collapse_max_count = (long)tki();
   expect("conv");
-  dr_clock_t c_umin = (dr_clock_t)tki(), c_cmax = (dr_clock_t)tki(); long c_cmc = (long)tki();
+  const char * c_umin = tk(); const char * c_cmax = tk(); const char * c_cmc = tk();
   expect("files");
   g_nfiles = (int)tki();
   g_files = (char **)malloc(sizeof(char *) * (g_nfiles + 1));
@@ -288,10 +290,6 @@ static void run_case(const char * dir) {
   snprintf(prefix, sizeof prefix, "%s/c%lld_%d", dir, id, (int)getpid());
   snprintf(prefix2, sizeof prefix2, "%s/d%lld_%d", dir, id, (int)getpid());
   opts->dag_file_prefix = prefix;
-  snprintf(path, sizeof path, "%s.dag", prefix);
-  snprintf(path2, sizeof path2, "%s.dag", prefix2);
-  snprintf(st1, sizeof st1, "%s.stat", prefix);
-  snprintf(st2, sizeof st2, "%s.stat", prefix2);
 
   g_dr_verif_clock = vclock;
   g_now = sc;
@@ -302,54 +300,94 @@ static void run_case(const char * dir) {
   printf("\n");
   fflush(stdout);
   dr_dump_();                      /* dr_make_pi_dag + file writer + .stat of the in-memory dag */
-  {
-    dr_pi_dag * G = dr_read_dag(path);
-    if (!G) { printf("READ-FAILED\n"); fflush(stdout); _exit(0); }
-    print_pi_dag("", G);
-    if (G->n <= hexlim) print_file_hex("", path);
-    traverse("", G);
-    /* .stat regenerated from the re-read dag must be identical */
-    GS.opts.dag_file_prefix = prefix2;
-    dr_gen_basic_stat(G);
-    printf("STATEQ %d\n", files_equal(st1, st2));
-    fflush(stdout);
-    /* conversion-time contraction (dag2any --shrink): dr_copy_pi_dag, then dump and read again */
-    GS.opts.uncollapse_min = c_umin; GS.opts.collapse_max = c_cmax; GS.opts.collapse_max_count = c_cmc;
-    {
-      dr_pi_dag G2[1];
-      dr_copy_pi_dag(G2, G);
-      print_pi_dag("2", G2);
-      traverse("2", G2);
-      fflush(stdout);
-      dr_gen_basic_stat(G2);
-      dr_gen_pi_dag(G2);
-      {
-        dr_pi_dag * G3 = dr_read_dag(path2);
-        if (!G3) { printf("READ-FAILED 3\n"); fflush(stdout); _exit(0); }
-        print_pi_dag("3", G3);
-        if (G3->n <= hexlim) print_file_hex("3", path2);
-      }
-    }
-  }
-  unlink(path); unlink(path2); unlink(st1); unlink(st2);
-  printf("END %lld\n", id);
   fflush(stdout);
+  /* the file is read back by a FRESH process image (pointers written into the file by this
+     process must not be usable by the reader) */
+  {
+    char a_id[32], a_hex[32], a_chk[8];
+    snprintf(a_id, sizeof a_id, "%lld", id); snprintf(a_hex, sizeof a_hex, "%lld", hexlim); snprintf(a_chk, sizeof a_chk, "%d", chk);
+    execl(g_self, "c19_dump", "--read", prefix, prefix2, a_id, a_hex, c_umin, c_cmax, c_cmc, a_chk, (char *)0);
+    printf("EXEC-FAILED\n"); fflush(stdout); _exit(4);
+  }
+}
+
+static void init_reader_opts(const char * prefix, int chk) {
+  dr_opts_init(0);
+  GS.opts.dag_file_prefix = prefix;
+  GS.opts.dag_file_yes = 1; GS.opts.stat_file_yes = 1; GS.opts.gpl_file_yes = 0; GS.opts.dot_file_yes = 0; GS.opts.text_file_yes = 0;
+  GS.opts.chk_level = (char)chk; GS.opts.dbg_level = 0; GS.opts.verbose_level = 0;
+}
+
+/* stage 2: read the dumped file, print it, replay it, shrink it (dag2any --shrink), dump the shrunk dag */
+static int stage_read(char ** a) {
+  const char * prefix = a[0], * prefix2 = a[1];
+  long long hexlim = atoll(a[3]);
+  int chk = atoi(a[7]);
+  char path[600], path2[600], st1[600], st2[600];
+  snprintf(path, sizeof path, "%s.dag", prefix);
+  snprintf(path2, sizeof path2, "%s.dag", prefix2);
+  snprintf(st1, sizeof st1, "%s.stat", prefix);
+  snprintf(st2, sizeof st2, "%s.stat", prefix2);
+  init_reader_opts(prefix2, chk);
+  dr_pi_dag * G = dr_read_dag(path);
+  if (!G) { printf("READ-FAILED\n"); fflush(stdout); return 0; }
+  print_pi_dag("", G);
+  if (G->n <= hexlim) print_file_hex("", path);
+  traverse("", G);
+  dr_gen_basic_stat(G);          /* .stat regenerated from the re-read dag must be identical */
+  printf("STATEQ %d\n", files_equal(st1, st2));
+  fflush(stdout);
+  GS.opts.uncollapse_min = (dr_clock_t)strtoull(a[4], 0, 10);
+  GS.opts.collapse_max = (dr_clock_t)strtoull(a[5], 0, 10);
+  GS.opts.collapse_max_count = atol(a[6]);
+  {
+    dr_pi_dag G2[1];
+    dr_copy_pi_dag(G2, G);
+    print_pi_dag("2", G2);
+    traverse("2", G2);
+    fflush(stdout);
+    dr_gen_basic_stat(G2);
+    dr_gen_pi_dag(G2);
+  }
+  fflush(stdout);
+  unlink(path); unlink(st1); unlink(st2);
+  execl(g_self, "c19_dump", "--print", path2, "3", a[3], a[2], (char *)0);
+  printf("EXEC-FAILED\n"); fflush(stdout);
+  return 4;
+}
+
+/* stage 3: read and print the dumped shrunk dag */
+static int stage_print(char ** a) {
+  const char * path = a[0], * sfx = a[1];
+  long long hexlim = atoll(a[2]);
+  init_reader_opts("unused", 0);
+  dr_pi_dag * G = dr_read_dag(path);
+  if (!G) { printf("READ-FAILED %s\n", sfx); fflush(stdout); return 0; }
+  print_pi_dag(sfx, G);
+  if (G->n <= hexlim) print_file_hex(sfx, path);
+  unlink(path);
+  printf("END %s\n", a[3]);
+  fflush(stdout);
+  return 0;
 }
 
 int main(int argc, char ** argv) {
   char * line = 0; size_t cap = 0; ssize_t len;
+  { ssize_t r = readlink("/proc/self/exe", g_self, sizeof g_self - 1); if (r < 0) r = 0; g_self[r] = 0; }
   if (argc >= 2 && !strcmp(argv[1], "--layout")) { print_layout(); return 0; }
+  if (argc >= 10 && !strcmp(argv[1], "--read")) return stage_read(argv + 2);
+  if (argc >= 6 && !strcmp(argv[1], "--print")) return stage_print(argv + 2);
   if (argc < 2) { fprintf(stderr, "usage: %s --layout | <scratch dir>\n", argv[0]); return 2; }
   mkdir(argv[1], 0777);
   while ((len = getline(&line, &cap, stdin)) > 0) {
     char * s; int n = 0, capn = 64;
     char ** toks = (char **)malloc(sizeof(char *) * capn);
     for (s = strtok(line, " \t\r\n"); s; s = strtok(0, " \t\r\n")) {
-      if (n + 1 >= capn) { capn *= 2; toks = (char **)realloc(toks, sizeof(char *) * capn); }
+      if (n + 2 >= capn) { capn *= 2; toks = (char **)realloc(toks, sizeof(char *) * capn); }
       toks[n++] = s;
     }
     if (n == 0) { free(toks); continue; }
-    toks[n] = 0;
+    toks[n] = "";
     fflush(stdout);
     {
       pid_t pid = fork();
